@@ -12,7 +12,50 @@ from harness import engine_run as er
 from harness import wfgen
 
 
-def gen_core_program(rng, p_partial=0.15):
+def add_engine_commands(rng, prog, p_cmd):
+    """engine commands in on-clauses: fail / succeed / noop / pause as first, middle or last element of a
+    clause; `pause` preferably with targets after it (they go to the command backlog); at most one
+    pause per clause (two pauses in one list: RunExistingTask commands saved to the backlog, not modelled)"""
+    for t in prog['tasks']:
+        if rng.random() >= p_cmd:
+            continue
+        cl = rng.choice(['on_success', 'on_success', 'on_error', 'on_complete'])
+        routes = t[cl]
+        cmd = rng.choice(['pause', 'pause', 'pause', 'fail', 'succeed', 'noop'])
+        if any(r['to'] in wfgen.ENGINE_CMDS for r in routes):
+            continue
+        if cmd == 'pause' and routes:
+            pos = rng.randint(0, len(routes) - 1) if rng.random() < 0.8 else len(routes)
+        else:
+            pos = rng.randint(0, len(routes))
+        routes.insert(pos, {'to': cmd, 'guard': None if rng.random() < 0.85 else ['lit', rng.choice([True, False])]})
+    return prog
+
+
+def gen_pause_backlog(rng):
+    """directed shape: a task completes with `on-success: [pause, x…]` while another branch still has work in
+    flight (the commands after `pause` are saved to the backlog; a stop while PAUSED + the late result of the
+    other branch poll the backlog in a stopped workflow)"""
+    def task(n, succ=(), err=(), join=None, action='noop'):
+        return {'name': n, 'action': [action], 'join': join,
+                'on_success': [{'to': x, 'guard': None} for x in succ],
+                'on_error': [{'to': x, 'guard': None} for x in err], 'on_complete': []}
+    after = rng.choice([['x'], ['x', 'y'], ['x', 'fail'], ['noop', 'x']])
+    tasks = [task('a', succ=['pause'] + after), task('b', succ=rng.choice([[], ['c'], ['j']]))]
+    names = set(n for n in after if n not in wfgen.ENGINE_CMDS)
+    for n in sorted(names):
+        tasks.append(task(n, succ=['j'] if rng.random() < 0.3 else []))
+    used = set(r['to'] for t in tasks for r in t['on_success'])
+    if 'c' in used:
+        tasks.append(task('c'))
+    if 'j' in used:
+        tasks.append(task('j', join=rng.choice(['all', 'one'])))
+    return {'name': 'wf', 'type': 'direct', 'tasks': tasks}
+
+
+def gen_core_program(rng, p_partial=0.15, p_cmd=0.0):
+    if p_cmd and rng.random() < 0.25:
+        return gen_pause_backlog(rng)
     prog = wfgen.gen_dag(rng, p_cycle=0.0, p_defaults=0.2, p_cmd=0.0)
     for t in prog['tasks']:
         if rng.random() < 0.12:
@@ -35,6 +78,8 @@ def gen_core_program(rng, p_partial=0.15):
         j = t.get('join')
         if j is not None and j != 'all' and wfgen.out_names(prog, t):
             t['join'] = 'all'
+    if p_cmd:
+        add_engine_commands(rng, prog, p_cmd)
     return prog
 
 
@@ -85,6 +130,11 @@ class Mapper(object):
                 o = c.cell_contents
                 if hasattr(o, 'task_ex') and hasattr(o, 'action_ex'):
                     return dict(self.tid(o.task_ex.id) or {'t': None}, k='postRunAction')
+            for c in func.__closure__ or ():
+                o = c.cell_contents
+                # repo patch 22: the operation captures the execution context instead of the action object
+                if isinstance(o, dict) and 'task_execution_id' in o:
+                    return dict(self.tid(o['task_execution_id']) or {'t': None}, k='postRunAction')
             return None
         if name == '_check':
             return {'k': 'postCheck'}
@@ -168,10 +218,10 @@ def model_obs(o):
     }
 
 
-def run_case(ctx, prog, table, policy, seed, ops=None, max_steps=300):
+def run_case(ctx, prog, table, policy, seed, ops=None, max_steps=300, id_mode='random'):
     """returns (events, real observations, trace-like dict) or None if the definition is rejected"""
     from harness.engine_driver import EngineWorld
-    w = EngineWorld(seed=seed)
+    w = EngineWorld(seed=seed, id_mode=id_mode)
     y = wfgen.render_yaml(prog)
     w.create_workflows(y)
     rng = random.Random(seed)
@@ -180,11 +230,19 @@ def run_case(ctx, prog, table, policy, seed, ops=None, max_steps=300):
     root = w.start_workflow('wf', {})
     events = [{'ev': 'start'}]
     robs = [real_obs(w, mapper)]
-    ops = sorted(ops or [], key=lambda o: o['at'])
+    cond_ops = [o for o in (ops or []) if 'when' in o]
+    ops = sorted([o for o in (ops or []) if 'when' not in o], key=lambda o: o['at'])
     oi = 0
     step = 0
     unsupported = None
     while step < max_steps:
+        # conditional operator commands: stop as soon as commands sit in the backlog of a PAUSED workflow
+        for o in cond_ops:
+            if not o.get('done') and robs[-1]['wf'] == 'PAUSED' and robs[-1]['backlog'] > 0:
+                o['done'] = True
+                w.op('stop_workflow', root, o['state'], 'msg')
+                events.append({'ev': 'stop', 'state': o['state']})
+                robs.append(real_obs(w, mapper))
         while oi < len(ops) and ops[oi]['at'] <= step:
             o = ops[oi]
             oi += 1
@@ -225,11 +283,102 @@ def run_case(ctx, prog, table, policy, seed, ops=None, max_steps=300):
             'errors': list(w.errors), 'exhausted': step >= max_steps}
 
 
-def run_chunk(ctx, n_programs, mode='plain'):
+FINAL = ('SUCCESS', 'ERROR', 'CANCELLED')
+
+
+def monitor_creation(ctx, events, robs, replay_obj):
+    """Direct reading of C11 / C10 on the REAL observations (independent of the model): no task execution is created
+    once the workflow is in a final state; none while it is PAUSED except by `resume`."""
+    for k in range(1, min(len(events), len(robs))):
+        before, after = robs[k - 1], robs[k]
+        ids0 = set(t[0] for t in before['tasks'])
+        new = sorted(t[0] for t in after['tasks'] if t[0] not in ids0)
+        if not new:
+            continue
+        joins = set(t['name'] for t in replay_obj.get('prog', {}).get('tasks', []) if t.get('join') is not None)
+        idle_joins = sorted(t[0] for t in after['tasks'] if t[0] in new and t[1] == 'IDLE' and t[0].split('#')[0] in joins)
+        if idle_joins:
+            # C04: a join starts only after its inbound tasks; an IDLE execution of a join is started like any task
+            ctx.count('core', 'hit:join-created-idle')
+            ctx.violation('C04 monitor: execution(s) %s of a JOIN task created IDLE (not WAITING): it starts without its '
+                          'join condition being checked (event %d: %s)' % (idle_joins, k, json.dumps(events[k])),
+                          dict(replay_obj, stream='core', step=k),
+                          {'kind': 'join-created-idle', 'via': 'command-restored-from-backlog'})
+        if before['wf'] in FINAL:
+            ctx.count('core', 'hit:task-created-after-final')
+            ctx.violation('C11 monitor: task execution(s) %s created in a workflow that was already %s (event %d: %s)' % (
+                new, before['wf'], k, json.dumps(events[k])), dict(replay_obj, stream='core', step=k),
+                {'kind': 'task-created-after-final', 'stream': 'core'})
+            return
+        if before['wf'] == 'PAUSED' and events[k].get('ev') != 'resume':
+            ctx.count('core', 'hit:task-created-while-paused')
+            ctx.violation('C10 monitor: task execution(s) %s created while the workflow was PAUSED (event %d: %s)' % (
+                new, k, json.dumps(events[k])), dict(replay_obj, stream='core', step=k),
+                {'kind': 'task-created-while-paused', 'stream': 'core'})
+            return
+
+
+def replay_events(prog, evs, seed=1, id_mode='random'):
+    """replay a model event list on the real engine WITHOUT the model: real observations after every event"""
+    from harness import live_replay as lr
+    from harness.engine_driver import EngineWorld
+    w = EngineWorld(seed=seed, id_mode=id_mode)
+    w.create_workflows(wfgen.render_yaml(prog))
+    mapper = Mapper(w)
+    root = None
+    robs = []
+
+    def enabled():
+        return [e for e in w.enabled() if not (e[0] == 'job' and e[1].func_name.endswith('_check_and_fix_integrity'))]
+    done = []
+    for e in evs:
+        if e['ev'] == 'start':
+            root = w.start_workflow('wf', {})
+        elif e['ev'] == 'pause':
+            w.op('pause_workflow', root)
+        elif e['ev'] == 'resume':
+            w.op('resume_workflow', root)
+        elif e['ev'] == 'stop':
+            w.op('stop_workflow', root, e['state'], 'msg')
+        else:
+            want = fmt({'k': 'runAction', 't': e['t'], 'occ': e.get('occ', 0)}) if e['ev'] == 'execute' else fmt(e['item'])
+            cand = [x for x in enabled() if fmt(mapper.item(x)) == want]
+            if not cand:
+                break
+            ok = e.get('ok', True)
+            w.deliver(cand[0], oracle=(lambda world, d, ok=ok: ('run', None) if ok else ('error', None)))
+        done.append(e)
+        robs.append(real_obs(w, mapper))
+    return done, robs
+
+
+def run_corpus(ctx):
+    """corpus/core/*.json: model event lists (theorem witnesses / former misses) replayed on the real engine,
+    rows + multiset of pending deliveries equal after every event"""
+    import glob
+    import os
+    from vlib import core
+    from harness import live_replay as lr
+    for f in sorted(glob.glob(os.path.join(core.VERIF, 'corpus', 'core', '*.json'))):
+        c = json.load(open(f))
+        evs = lr.parse_events(c['events']) if c['events'] and isinstance(c['events'][0], str) else c['events']
+        ctx.count('core', 'corpus')
+        out = lr.replay(c['prog'], evs, drv=ctx.driver())
+        ctx.evaluated('core', ['corpus', os.path.basename(f)], nontrivial=True)
+        if not out['ok']:
+            ctx.disagree('core', {'corpus': os.path.basename(f), 'prog': c['prog'], 'events': c['events'],
+                                  'at': out['diverged_at']}, 'model event list', out['why'])
+        done, robs = replay_events(c['prog'], evs)
+        monitor_creation(ctx, done, robs, {'corpus': os.path.basename(f), 'prog': c['prog'], 'events': c['events']})
+
+
+def run_chunk(ctx, n_programs, mode='plain', p_cmd=0.3):
     drv = ctx.driver()
     rng = ctx.rng
+    if getattr(ctx, 'chunk', 0) == 0:
+        run_corpus(ctx)
     for i in range(n_programs):
-        prog = gen_core_program(rng)
+        prog = gen_core_program(rng, p_cmd=p_cmd if rng.random() < 0.6 else 0.0)
         table = wfgen.gen_oracle_table(rng, prog, p_err=0.1)
         policy = rng.choice(['random', 'random', 'fifo', 'lifo'])
         seed = rng.getrandbits(32)
@@ -239,8 +388,27 @@ def run_chunk(ctx, n_programs, mode='plain'):
             ops = [{'at': k1, 'op': 'pause'}, {'at': rng.choice([k1 + rng.randint(0, 15), 10 ** 6]), 'op': 'resume'}]
         if mode in ('stop', 'mixed') and rng.random() < (1.0 if mode == 'stop' else 0.3):
             ops.append({'at': rng.randint(0, 30), 'op': 'stop', 'state': rng.choice(['SUCCESS', 'ERROR', 'CANCELLED'])})
+        has_pause = any(r['to'] == 'pause' for t in prog['tasks'] for cl in ('on_success', 'on_error', 'on_complete')
+                        for r in t[cl])
+        has_cmd = any(r['to'] in wfgen.ENGINE_CMDS for t in prog['tasks'] for cl in ('on_success', 'on_error', 'on_complete')
+                      for r in t[cl])
+        if has_pause:
+            # a `pause` command needs an operator to go on: resume when nothing is deliverable (and once earlier)
+            if rng.random() < 0.5:
+                ops.append({'at': rng.randint(5, 40), 'op': 'resume'})
+            ops += [{'at': 10 ** 6, 'op': 'resume'}, {'at': 10 ** 6 + 1, 'op': 'resume'}]
+        if has_cmd:
+            ctx.count('core', 'engine-commands')
+        if has_pause and mode in ('stop', 'mixed') and rng.random() < 0.5:
+            # stop while commands are waiting in the backlog (they must never be dispatched afterwards)
+            ops = [o for o in ops if o['op'] != 'stop'] + [{'when': 'backlog', 'op': 'stop',
+                                                             'state': rng.choice(['ERROR', 'CANCELLED'])}]
+            ctx.count('core', 'op:stop-with-backlog')
         try:
-            r = run_case(ctx, prog, table, policy, seed, ops=[dict(o) for o in ops])
+            # a join restored from the backlog gets a second row: the join logic then reads "the latest row of a
+            # task" = the row the database lists last; sequential ids make that the creation order (the model's)
+            r = run_case(ctx, prog, table, policy, seed, ops=[dict(o) for o in ops],
+                         id_mode='seq' if has_cmd else 'random')
         except Exception as e:
             from mistral import exceptions as exc
             if isinstance(e, exc.MistralException):
@@ -251,16 +419,24 @@ def run_chunk(ctx, n_programs, mode='plain'):
             ctx.count('core', 'unsupported-item')
             continue
         mo = drv.call('engine.run', {'spec': spec_json(prog), 'events': r['events']})
+        monitor_creation(ctx, r['events'], r['real'], {'prog': prog, 'oracle': table, 'policy': policy, 'seed': seed,
+                                                       'ops': ops, 'id_mode': 'seq' if has_cmd else 'random'})
         ctx.count('core', 'policy:' + policy)
         ctx.count('core', 'events', len(r['events']))
         for o in ops:
-            ctx.count('core', 'op:' + o['op'])
+            if 'when' not in o:
+                ctx.count('core', 'op:' + o['op'])
         joins = any(t.get('join') is not None for t in prog['tasks'])
         ctx.evaluated('core', [r['yaml'], table, policy, seed, ops], nontrivial=joins or bool(ops))
         if isinstance(mo, dict) or isinstance(mo, str):
             ctx.disagree('core', {'yaml': r['yaml'], 'events': r['events']}, mo, 'model refused the input')
             continue
         for k, (m, real) in enumerate(zip(mo, r['real'])):
+            if not m.get('stepAgrees', True):
+                # command-free definition: the task-only core `step` must equal `stepX` up to the order of rows
+                ctx.disagree('core', {'yaml': r['yaml'], 'step': k, 'event': r['events'][k]},
+                             'Mistral.Engine.step differs from stepX on a definition without engine commands', m)
+                break
             mm = model_obs(m)
             if mm != real:
                 diff = {key: [mm[key], real[key]] for key in mm if mm[key] != real[key]}
@@ -270,3 +446,19 @@ def run_chunk(ctx, n_programs, mode='plain'):
                 break
         if ctx.rng.random() < 0.01:
             ctx.sample({'stream': 'core', 'yaml': r['yaml'], 'events': r['events'][:12], 'final': r['real'][-1]})
+
+
+def replay(ctx, rep):
+    """replay of a `core` violation: the recorded case is run again on the real engine and the monitors are read"""
+    r = rep['replay']
+    if 'events' in r and 'policy' not in r:
+        from harness import live_replay as lr
+        evs = lr.parse_events(r['events']) if r['events'] and isinstance(r['events'][0], str) else r['events']
+        done, robs = replay_events(r['prog'], evs)
+        print('replay: %d of %d events delivered; real final %s' % (len(done), len(evs), json.dumps(robs[-1])[:300]))
+        monitor_creation(ctx, done, robs, {k: r[k] for k in ('corpus', 'prog', 'events') if k in r})
+        return
+    rr = run_case(ctx, r['prog'], r['oracle'], r['policy'], r['seed'], ops=[dict(o) for o in r['ops']],
+                  id_mode=r.get('id_mode', 'random'))
+    print('replay: real final %s' % json.dumps(rr['real'][-1])[:300])
+    monitor_creation(ctx, rr['events'], rr['real'], {k: r[k] for k in ('prog', 'oracle', 'policy', 'seed', 'ops', 'id_mode') if k in r})
